@@ -178,6 +178,11 @@ def truth(ctx, v):
         return True
     if isinstance(v, Accum):
         raise Unsupported("truthiness of accumulator")
+    if isinstance(v, SymDict) and not v.overlay:
+        # a symbolic map of unknown size: empty or not is one unknown Boolean per map (both branches are explored)
+        if not hasattr(v, 'nonempty'):
+            v.nonempty = ctx.fresh(f"nonempty_{v.name.split('#')[0]}", 'B')
+        return v.nonempty
     raise Unsupported(f"truth({v!r})")
 
 
@@ -529,6 +534,10 @@ class Interp:
             return a + b
         if isinstance(a, tuple) and isinstance(b, tuple) and op == 'Add':
             return a + b
+        if op == 'Add' and (isinstance(a, SymColl) or isinstance(b, SymColl)) and isinstance(a, (SymColl, list)) and isinstance(b, (SymColl, list)):
+            # list concatenation with a symbolic list: iterated part by part (an arbitrary element of the concatenation is an
+            # arbitrary element of one of its parts); any other use of the value is unsupported
+            return ('chain', [a, b])
         if isinstance(a, list) and op == 'Mult' and isinstance(b, int):
             return a * b
         if isinstance(a, bool):
